@@ -46,6 +46,11 @@ fn gen(t: Tier, _seed: u64, emit: &mut dyn FnMut(Case)) {
             emit(Case::ConvShaped { n, s });
         }
     }
+    for n in long_lengths(2) {
+        for s in [0usize, 1, 31] {
+            emit(Case::ConvShaped { n, s });
+        }
+    }
     for n in [0usize, 1, 2, 3, 5, 31, 32, 33, 64, 65, 96] {
         emit(Case::ConvArray { n });
     }
@@ -80,7 +85,7 @@ fn run(c: &Case, out: &mut Out) {
             });
         }
         Case::ConvShaped { n, s } => {
-            if out.tier.thorough() {
+            if out.tier.thorough() && *n <= 70 {
                 let seed = out.seed;
                 pfamily(*n, 4, seed, &mut |idx| conv(&syms::<Dna>(idx), *s, out));
             } else {
